@@ -257,10 +257,15 @@ func (l *queue) Empty() bool {
 	if l.head == nil || l.tail == nil || len(l.segments) == 0 {
 		return true
 	}
-	if l.head == l.tail && l.head.pos == l.tail.filePos()-footerSize {
-		return true
+	// The queue is empty when no segment holds a block that has not been
+	// advanced past (the head position of a segment is at its footer) and
+	// nothing waits in a write buffer.
+	for _, s := range l.segments {
+		if !s.empty() {
+			return false
+		}
 	}
-	return false
+	return true
 }
 
 // diskUsage returns the total size on disk used by the queue
@@ -736,6 +741,14 @@ func (l *segment) advance() error {
 	}
 
 	return nil
+}
+
+// empty reports whether every block of the segment has been advanced past and
+// no appended block is still buffered.
+func (l *segment) empty() bool {
+	l.mu.RLock()
+	defer l.mu.RUnlock()
+	return l.pos == l.size-footerSize && (l.buf == nil || l.buf.Len() == 0)
 }
 
 func (l *segment) close() error {
